@@ -104,7 +104,7 @@ fn pub_step(thorough: bool) -> BoxedStrategy<Step> {
             if correlate.is_some() {
                 props.retain(|q| q.id() != 0x09);
             }
-            let mut spec = PubSpec { qos, retain, topic: TopicSpec::new(tl, tv), payload: PayloadSpec::new(8, ps), props, correlate, cancel: None };
+            let mut spec = PubSpec { qos, retain, topic: TopicSpec::new(tl, tv), payload: PayloadSpec::new(8, ps), props, correlate, cancel: None, via: match tv % 8 { 0 => 1, 1 => 2, _ => 0 } };
             match sc {
                 SizeClass::Small => {}
                 SizeClass::Boundary(b, d) => {
